@@ -7,12 +7,13 @@
    then events that refer to a curve by its line number "ci" (a point is [] or [[x limbs],[y limbs]]):
        {"op":"add"|"sub","ci":1,"P":..,"Q":..,"R":..}       R = P + Q  /  P - Q
        {"op":"dbl","ci":1,"P":..,"R":..}                    R = 2P
-       {"op":"mul","ci":1,"P":..,"k":[..],"steps":[..],"R":[..]}
+       {"op":"mul","ci":1,"P":..,"k":[..],"steps":[..],"chk":[..],"R":[..]}
              steps = every intermediate point of a left-to-right double-and-add ladder for k*P that the
              driver ran with the library's own add/double; each step is checked with DblR / AddR against the
              bits of k, so the last step is k*P by the textbook definition; every point in R (the results of
              the multipliers under test) must equal it.  k = 0 has no steps and needs R = Inf.
-       {"op":"twin","ci":1,"P":..,"k":..,"stepsP":..,"Q":..,"l":..,"stepsQ":..,"R":[..]}   R = kP + lQ
+       {"op":"twin","ci":1,"P":..,"k":..,"stepsP":..,"chkP":..,"Q":..,"l":..,"stepsQ":..,"chkQ":..,"R":[..]}   R = kP + lQ
+             chk = [] : every step is decided;  chk = [j1, j2, ..] : only these step positions are decided (sampled)
    One state per event; the verdict is printed as  [i, verdict]  ("ok" or the name of the first failed clause). *)
 EXTENDS BigNatX, Json, IOUtils, TLC
 
@@ -30,19 +31,27 @@ IsNum(x) == IsNat(x) /\ (Len(x) = 0 \/ x[Len(x)] # 0)
 IsPoint(P) == P = << >> \/ (Len(P) = 2 /\ IsNum(P[1]) /\ IsNum(P[2]))
 CurveOf(e) == Tr[e.ci]
 
-\* left-to-right binary ladder: for bit i = top..0:  acc := 2*acc (one step);  if bit set: acc := acc + P (one step)
-RECURSIVE LadderFrom(_, _, _, _, _, _, _)
-LadderFrom(c, P, k, i, acc, steps, pos) ==       \* "ok" or the failing clause
-   IF i < 0 THEN (IF pos = Len(steps) + 1 THEN "ok" ELSE "ladder-length")
-   ELSE IF pos > Len(steps) THEN "ladder-length"
-   ELSE LET d == steps[pos] IN
-        IF ~(IsPoint(d) /\ Rel!DblR(c, acc, d)) THEN "ladder-dbl"
-        ELSE IF Bit(k, i) = 0 THEN LadderFrom(c, P, k, i - 1, d, steps, pos + 1)
-        ELSE IF pos + 1 > Len(steps) THEN "ladder-length"
-        ELSE LET s == steps[pos + 1] IN
-             IF ~(IsPoint(s) /\ Rel!AddR(c, d, P, s)) THEN "ladder-add"
-             ELSE LadderFrom(c, P, k, i - 1, s, steps, pos + 2)
-Ladder(c, P, k, steps) == LadderFrom(c, P, k, BitLen(k) - 1, << >>, steps, 1)
+\* left-to-right binary ladder: for bit i = top..0:  acc := 2*acc (one step);  if the bit is set: acc := acc + P (one
+\* more step).  Plan(k) lists the kind of every step (0 = doubling, 1 = addition of P); step j must satisfy the
+\* relation with its predecessor (Inf before the first).  "chk" selects the steps that are decided: << >> = all of
+\* them (then the last step is k*P by the textbook definition), otherwise only the listed positions (quick tier).
+\* (Written without a recursion over the steps on purpose: TLC looks identifiers up in a context chain that grows
+\* with the recursion depth, which made a 400-step recursive ladder 10x slower than this flat form.)
+RECURSIVE PlanFrom(_, _)
+PlanFrom(k, i) == IF i < 0 THEN << >>
+                  ELSE (IF Bit(k, i) = 1 THEN << 0, 1 >> ELSE << 0 >>) \o PlanFrom(k, i - 1)
+Plan(k) == PlanFrom(k, BitLen(k) - 1)
+StepOk(c, P, steps, plan, j) ==
+   LET prev == IF j = 1 THEN << >> ELSE steps[j - 1]  cur == steps[j] IN
+   /\ IsPoint(cur)
+   /\ IF plan[j] = 0 THEN Rel!DblR(c, prev, cur) ELSE Rel!AddR(c, prev, P, cur)
+Ladder(c, P, k, steps, chk) ==                       \* "ok" or the failing clause
+   LET plan == Plan(k) IN
+   IF Len(plan) # Len(steps) THEN "ladder-length"
+   ELSE LET todo == IF Len(chk) = 0 THEN 1..Len(steps) ELSE { chk[x] : x \in 1..Len(chk) }
+            bad  == { j \in todo : ~StepOk(c, P, steps, plan, j) }
+        IN  IF bad = {} THEN "ok"
+            ELSE IF plan[CHOOSE j \in bad : \A j2 \in bad : j <= j2] = 0 THEN "ladder-dbl" ELSE "ladder-add"
 LadderEnd(k, steps) == IF Len(k) = 0 THEN << >> ELSE steps[Len(steps)]
 
 AllEq(Rs, X) == \A r \in 1..Len(Rs) : Rs[r] = X
@@ -66,12 +75,12 @@ Verdict(e) ==
        ELSE IF ~Rel!DblR(c, e.P, e.R) THEN "wrong-double" ELSE "ok")
    ELSE IF e.op = "mul" THEN
       (IF ~(IsPoint(e.P) /\ Rel!OnCurveR(c, e.P) /\ IsNum(e.k)) THEN "operand-not-on-curve"
-       ELSE LET lv == Ladder(c, e.P, e.k, e.steps) IN
+       ELSE LET lv == Ladder(c, e.P, e.k, e.steps, e.chk) IN
             IF lv # "ok" THEN lv
             ELSE IF ~AllEq(e.R, LadderEnd(e.k, e.steps)) THEN "wrong-multiple" ELSE "ok")
    ELSE IF e.op = "twin" THEN
       (IF ~(IsPoint(e.P) /\ Rel!OnCurveR(c, e.P) /\ IsPoint(e.Q) /\ Rel!OnCurveR(c, e.Q)) THEN "operand-not-on-curve"
-       ELSE LET lp == Ladder(c, e.P, e.k, e.stepsP)  lq == Ladder(c, e.Q, e.l, e.stepsQ) IN
+       ELSE LET lp == Ladder(c, e.P, e.k, e.stepsP, e.chkP)  lq == Ladder(c, e.Q, e.l, e.stepsQ, e.chkQ) IN
             IF lp # "ok" THEN lp ELSE IF lq # "ok" THEN lq
             ELSE IF \E r \in 1..Len(e.R) : ~(IsPoint(e.R[r]) /\ Rel!OnCurveR(c, e.R[r])) THEN "result-not-on-curve"
             ELSE IF \E r \in 1..Len(e.R) : ~Rel!AddR(c, LadderEnd(e.k, e.stepsP), LadderEnd(e.l, e.stepsQ), e.R[r])
